@@ -179,7 +179,7 @@ var allPatches = []string{"replace", "add-public-keys", "remove-public-keys", "a
 // baseProtocol: every numeric field distinct so that a field used in place of another shows.
 func baseProtocol(r *rand.Rand) protocol.Protocol {
 	return protocol.Protocol{
-		GenesisTime:                  uint64(1 + r.Intn(5)),
+		GenesisTime:                  []uint64{uint64(1 + r.Intn(5)), 0, 10000000, 1 << 40}[r.Intn(4)], // windows must not depend on it
 		MultihashAlgorithms:          []uint{18},
 		MaxOperationCount:            uint(2000 + r.Intn(100)),
 		MaxOperationSize:             uint(20000 + r.Intn(1000)),
@@ -275,14 +275,14 @@ func flipBitB64(s string, r *rand.Rand) string {
 
 // mutation names per operation type; "" = valid
 var commonSigned = []string{"", "", "", "sig_bitflip", "payload_reencoded", "key_subst_no_resign", "kid_added_no_resign",
-	"sig_truncated", "sig_by_other_key", "key_subst_resigned", "key_subst_resigned_old_reveal", "reveal_substituted",
-	"reveal_unconfigured_alg", "extra_header", "alg_not_allowed", "alg_missing", "curve_not_allowed", "nonce_wrong_size",
+	"sig_truncated", "sig_extended", "sig_by_other_key", "key_subst_resigned", "key_subst_resigned_old_reveal", "reveal_substituted",
+	"reveal_unconfigured_alg", "reveal_truncated_digest", "extra_header", "alg_not_allowed", "alg_missing", "curve_not_allowed", "nonce_wrong_size",
 	"malformed_json", "missing_did_suffix", "missing_signed_data", "jws_two_parts", "jws_empty_sig", "payload_not_json",
-	"json_type_member_differs", "early", "late", "at_from", "at_until", "at_default_until", "after_default_until", "until_only", "inverted_window"}
+	"json_type_member_differs", "early", "late", "at_from", "at_until", "at_default_until", "after_default_until", "until_only", "inverted_window", "negative_until", "negative_from"}
 
 var deltaMuts = []string{"delta_substituted", "delta_no_patches", "delta_disabled_action", "delta_invalid_patch",
 	"delta_oversize", "delta_bad_update_commitment", "delta_missing", "delta_missing_hash_of_null", "compose_fails",
-	"signed_delta_hash_unconfigured_alg"}
+	"signed_delta_hash_unconfigured_alg", "delta_hash_truncated"}
 
 func mutationsFor(typ string) []string {
 	switch typ {
@@ -296,7 +296,7 @@ func mutationsFor(typ string) []string {
 	case "recover":
 		return append(append(append([]string{}, commonSigned...), deltaMuts...), "key_reuse", "recovery_commitment_not_mh", "origin_object")
 	case "deactivate":
-		return append(append([]string{}, commonSigned...), "signed_suffix_mismatch", "signed_suffix_missing", "recover_payload_replayed")
+		return append(append([]string{}, commonSigned...), "signed_suffix_mismatch", "signed_suffix_missing", "recover_payload_replayed", "extra_signed_commitments")
 	}
 	return []string{""}
 }
@@ -346,6 +346,11 @@ func (d *didState) buildOp(typ, mut string, t uint64, cfg *protocol.Protocol) bu
 	if mut == "delta_missing_hash_of_null" {
 		deltaHash = modelHash(nil, code)
 	}
+	if mut == "delta_hash_truncated" { // a well-formed multihash carrying only a prefix of the delta's digest
+		full := digest(code, jcs(delta))
+		deltaHash = b64(multihash(code, full[:[]int{0, 1, 16, len(full) - 1}[r.Intn(4)]]))
+		v.DeltaHashOK = false
+	}
 	if mut == "signed_delta_hash_unconfigured_alg" || (mut == "delta_hash_not_mh" && typ == "create") {
 		deltaHash = "notAMultihash"
 		v.ParseOK = false
@@ -369,6 +374,13 @@ func (d *didState) buildOp(typ, mut string, t uint64, cfg *protocol.Protocol) bu
 		from, until = ti-delta0-1, 0
 	case "until_only":
 		from, until = 0, ti+int64(r.Intn(3))-1
+	case "negative_until": // until-only with a negative bound: never effective
+		from, until = 0, -1-int64(r.Intn(100))
+	case "negative_from": // a negative from with a future (or defaulted) until: effective
+		from, until = -1-int64(r.Intn(50)), []int64{ti + 100, 0}[r.Intn(2)]
+		if until == 0 && from+delta0 < ti {
+			until = ti + 100
+		}
 	case "inverted_window": // 0 < until < from: never effective; the validator must still see exactly this pair
 		from = ti - int64(r.Intn(30)) + 10
 		until = from - 1 - int64(r.Intn(5))
@@ -383,7 +395,7 @@ func (d *didState) buildOp(typ, mut string, t uint64, cfg *protocol.Protocol) bu
 			from, until = ti-int64(r.Intn(int(delta0)+1)), 0
 		}
 	}
-	if from < 0 {
+	if from < 0 && mut != "negative_from" {
 		from = 0
 		if until == 0 && mut == "after_default_until" {
 			// cannot express with non-negative from; fall back to an explicit expired window
@@ -468,6 +480,11 @@ func (d *didState) buildOp(typ, mut string, t uint64, cfg *protocol.Protocol) bu
 		if mut == "signed_suffix_mismatch" {
 			payload["didSuffix"] = d.suffix + "x"
 			v.ParseOK, v.SuffixOK = false, false
+		}
+		if mut == "extra_signed_commitments" { // valid: unknown members of the signed data are ignored
+			payload["recoveryCommitment"] = commitmentOf(nextRec.jwk(), code)
+			payload["updateCommitment"] = commitmentOf(nextUpd.jwk(), code)
+			payload["deltaHash"] = deltaHash
 		}
 		if mut == "signed_suffix_missing" {
 			delete(payload, "didSuffix")
@@ -556,6 +573,14 @@ func (d *didState) buildOp(typ, mut string, t uint64, cfg *protocol.Protocol) bu
 			raw, _ := b64dec(parts[2])
 			parts[2] = b64(raw[:len(raw)-1])
 			v.SigOK = false
+		case "sig_extended": // the valid signature followed by further octets
+			raw, _ := b64dec(parts[2])
+			extra := make([]byte, 1+r.Intn(8))
+			if r.Intn(2) == 0 {
+				rngReader{r}.Read(extra)
+			}
+			parts[2] = b64(append(raw, extra...))
+			v.SigOK = false
 		case "payload_reencoded":
 			p2 := map[string]interface{}{}
 			for k, val := range payload {
@@ -598,6 +623,10 @@ func (d *didState) buildOp(typ, mut string, t uint64, cfg *protocol.Protocol) bu
 			v.ParseOK = false
 		case "reveal_unconfigured_alg":
 			op.reveal = revealOf(revealKey.jwk(), 0x13)
+			v.ParseOK = false
+		case "reveal_truncated_digest": // a well-formed multihash whose digest is a proper prefix of the real one
+			full := digest(code, jcs(revealKey.jwk()))
+			op.reveal = b64(multihash(code, full[:[]int{0, 1, 16, len(full) - 1}[r.Intn(4)]]))
 			v.ParseOK = false
 		case "missing_did_suffix":
 			op.didSuffix = ""
@@ -748,14 +777,14 @@ func genHistory(r *rand.Rand, focus string, maxLen int) (*histCase, []protocol.P
 		case "window":
 			for _, m := range muts {
 				switch m {
-				case "", "early", "late", "at_from", "at_until", "at_default_until", "after_default_until", "until_only", "inverted_window", "compose_fails":
+				case "", "early", "late", "at_from", "at_until", "at_default_until", "after_default_until", "until_only", "inverted_window", "negative_until", "negative_from", "compose_fails":
 					pool = append(pool, m)
 				}
 			}
 		case "auth":
 			for _, m := range muts {
 				if m == "" || strings.HasPrefix(m, "sig_") || strings.HasPrefix(m, "key_") || strings.HasPrefix(m, "reveal_") ||
-					strings.HasPrefix(m, "delta_substituted") || strings.Contains(m, "header") || strings.HasPrefix(m, "alg_") ||
+					strings.HasPrefix(m, "delta_substituted") || m == "delta_hash_truncated" || strings.Contains(m, "header") || strings.HasPrefix(m, "alg_") ||
 					m == "payload_reencoded" || m == "kid_added_no_resign" || strings.HasPrefix(m, "signed_suffix_") || m == "recover_payload_replayed" || strings.HasPrefix(m, "jws_") {
 					pool = append(pool, m)
 				}
@@ -783,6 +812,10 @@ func genHistory(r *rand.Rand, focus string, maxLen int) (*histCase, []protocol.P
 			Canon: fmt.Sprintf("ref%d", r.Intn(100000)), Bytes: b.bytes, V: b.v, Label: b.label}
 		for j := 0; j < r.Intn(3); j++ {
 			st.Equiv = append(st.Equiv, fmt.Sprintf("eq%d", r.Intn(1000)))
+		}
+		if r.Intn(4) == 0 { // the same reference more than once, then others (lists are reported as given)
+			a, b2 := fmt.Sprintf("eq%d", r.Intn(1000)), fmt.Sprintf("eq%d", r.Intn(1000))
+			st.Equiv = [][]string{{a, a, b2, "eqZ"}, {a, b2, a, b2, "eqY", "eqZ"}, {a, a}, {a, a, a, b2}}[r.Intn(4)]
 		}
 		c.Steps = append(c.Steps, st)
 		cfgs = append(cfgs, cfg)
